@@ -68,6 +68,29 @@ func (pc *parentController) callHook(
 		}
 	}
 
+	// With selector generation the controller-uid label is part of every desired
+	// child. Add it here, so that the rolling-update checks, which compare observed
+	// children with these desired children, see the same labels that are applied.
+	if pc.cc != nil && pc.isUsingGeneratedLabelSelector() {
+		for _, child := range response.Children {
+			if child == nil {
+				continue
+			}
+			objLabels, _, err := unstructured.NestedStringMap(child.UnstructuredContent(), "metadata", "labels")
+			if err != nil {
+				// Invalid labels are reported when the desired children are validated.
+				continue
+			}
+			if _, ok := objLabels["controller-uid"]; !ok {
+				if objLabels == nil {
+					objLabels = make(map[string]string, 1)
+				}
+				objLabels["controller-uid"] = string(parent.GetUID())
+				child.SetLabels(objLabels)
+			}
+		}
+	}
+
 	// A JSON null in the children list decodes to a nil entry; drop it (the
 	// namespace defaulting above already tolerates it) instead of crashing later.
 	response.Children = slices.DeleteFunc(response.Children, func(child *unstructured.Unstructured) bool { return child == nil })
